@@ -25,7 +25,7 @@ pub(crate) fn is_tuple_fields(fs: &[Field]) -> bool {
     true
 }
 
-static KEYWORDS: [&str; 64] = [
+static KEYWORDS: [&str; 65] = [
     "abstract",
     "arguments",
     "await",
@@ -90,6 +90,8 @@ static KEYWORDS: [&str; 64] = [
     "while",
     "with",
     "yield",
+    // not a reserved word, but the parameter name of the generated idlFactory
+    "IDL",
 ];
 pub(crate) fn ident(id: &str) -> RcDoc<'_> {
     if KEYWORDS.contains(&id) {
